@@ -314,12 +314,12 @@ def run_c20(t, tier, res):
     res.digest = digest_of([tree_snapshot(os.path.join(wr, "Rules")), [v.as_dict() for v in res.violations]])
 
 
-def edit_step(t, res, wr, src, step, all_args, guess_cap=20000):
+def edit_step(t, res, wr, src, step, all_args, guess_cap=20000, force_copy=False):
     """one edit_rules.main() process image on ruleset `src`; returns (ruleset to edit next, lines before, lines kept, shape)
     or None after a violation"""
     rdir = os.path.join(wr, "Rules", src)
     opt = {"min": t.choice([0, 0, 1, 2, 3, 4, 6, 8, 12]), "max": t.choice([0, 0, 3, 4, 5, 6, 8, 10, 14]),
-           "terminals": None, "regex": None, "copy": t.chance(1, 3)}
+           "terminals": None, "regex": None, "copy": t.chance(1, 3) or force_copy}
     if opt["min"] and opt["max"] and opt["min"] > opt["max"] and t.chance(3, 4):
         opt["min"], opt["max"] = opt["max"], opt["min"]
     args = ["-r", src]
@@ -520,7 +520,8 @@ def shipped_edit_job(name, seed, inflate=False):
             f.write("".join(lines).encode("ascii"))
     with guesser.streams():
         for step in range(t.between(2, 3)):
-            out = edit_step(t, res, wr, src, step, all_args, guess_cap=0 if inflate else 3000)
+            # (the multi-MiB grammar is always edited into a copy once: what a copy shares with its source shows there)
+            out = edit_step(t, res, wr, src, step, all_args, guess_cap=0 if inflate else 3000, force_copy=inflate and step == 0)
             if out is None:
                 break
             src, n_orig, n_kept, _shape = out
